@@ -136,17 +136,28 @@ Proof.
   - intros f orig rep Hin. rewrite Sb in Hin. apply In_inv_batch in Hin. destruct Hin as [|[? _]]; auto.
 Qed.
 
-(* uv__poll_stop: the handle is out of the registry, its ghost says "stopped",
-   and nothing is left in the batch for its descriptor number *)
+Lemma NI_iuw s fd : NI s -> NI (invalidate_unless_watched s fd) /\
+  (reg s fd = None ->
+   forall f orig rep, In (f, orig, rep) (batch (invalidate_unless_watched s fd)) -> f = -1 \/ f <> fd).
+Proof.
+  intros Hn. destruct (iuw_cases s fd) as [[Hr ->]|[Hr ->]].
+  - split; auto. intros; congruence.
+  - destruct (NI_invalidate s fd Hn). split; auto.
+Qed.
+
+(* uv__poll_stop: the handle is out of the registry, its ghost says "stopped", and -
+   unless another watcher is registered under its descriptor number - nothing is left
+   in the batch for that number *)
 Lemma NI_poll_stop s i : NI s -> (i < length (hs s))%nat ->
   let s' := poll_stop s i in
   NI s' /\ (forall fd, reg s' fd <> Some i) /\
-  (forall f orig rep, In (f, orig, rep) (batch s') -> f = -1 \/ f <> h_fd (hget s i)) /\
+  (reg s' (h_fd (hget s i)) = None ->
+   forall f orig rep, In (f, orig, rep) (batch s') -> f = -1 \/ f <> h_fd (hget s i)) /\
   length (hs s') = length (hs s) /\ npw s' = npw s /\
   (forall fd, reg s' fd = Some i -> False) /\
   (forall fd j, reg s' fd = Some j -> reg s fd = Some j) /\
   h_pev (hget s' i) = m0 /\ h_ev (hget s' i) = m0 /\ h_fd (hget s' i) = h_fd (hget s i) /\
-  h_kind (hget s' i) = h_kind (hget s i).
+  h_kind (hget s' i) = h_kind (hget s i) /\ g_start (hget s' i) = None.
 Proof.
   intros Hn Hl. cbv zeta. unfold poll_stop.
   destruct (NI_io_stop s i ALLEV Hn Hl (or_intror eq_refl)) as [H1 H2]. specialize (H2 eq_refl).
@@ -160,13 +171,14 @@ Proof.
   assert (Hs2 : hget s2 i = h_set_ghost (h_set_active (hget s1 i) false) (g_req (hget s1 i)) None).
   { unfold s2. rewrite hget_hupd_same by lia. reflexivity. }
   assert (Hfd : h_fd (hget s2 i) = h_fd (hget s i)) by (rewrite Hs2, Hself; reflexivity).
-  destruct (NI_invalidate s2 (h_fd (hget s2 i)) H3) as [H4 H5].
-  destruct (invalidate_same s2 (h_fd (hget s2 i))) as [Sh [Sr [_ [Sb [Sn _]]]]]. cbv zeta in *.
-  assert (Hg : forall j, hget (invalidate s2 (h_fd (hget s2 i))) j = hget s2 j) by (intro j; unfold hget at 1; rewrite Sh; reflexivity).
+  destruct (NI_iuw s2 (h_fd (hget s2 i)) H3) as [H4 H5].
+  destruct (iuw_same s2 (h_fd (hget s2 i))) as [Sh [Sr [_ [Sn _]]]]. cbv zeta in *.
+  assert (Hg : forall j, hget (invalidate_unless_watched s2 (h_fd (hget s2 i))) j = hget s2 j)
+    by (intro j; unfold hget at 1; rewrite Sh; reflexivity).
   split_all.
   - exact H4.
   - intros fd. rewrite Sr. unfold s2. cbn [reg hupd set_hs]. apply H2.
-  - intros f orig rep Hin. rewrite <- Hfd. eapply H5; eauto.
+  - intros Hnone f orig rep Hin. rewrite <- Hfd. eapply H5; eauto. rewrite Sr, <- Hfd in Hnone. exact Hnone.
   - rewrite Sh. unfold s2. rewrite hupd_length. auto.
   - rewrite Sn. unfold s2. cbn [npw hupd set_hs]. unfold s1. apply (io_stop_same s i ALLEV).
   - intros fd Hc. rewrite Sr in Hc. unfold s2 in Hc. cbn [reg hupd set_hs] in Hc. eapply H2; eauto.
@@ -176,6 +188,7 @@ Proof.
   - rewrite Hg, Hs2, Hself. reflexivity.
   - rewrite Hg. auto.
   - rewrite Hg, Hs2, Hself. reflexivity.
+  - rewrite Hg, Hs2. reflexivity.
 Qed.
 
 Lemma meqb_sym a b : meqb a b = meqb b a.
@@ -188,7 +201,7 @@ Proof.
   intros Hn Hl Hk. unfold poll_start.
   destruct (match reg s (h_fd (hget s i)) with Some j => negb (Nat.eqb i j) | None => false end) eqn:Ho;
     [exact Hn|].
-  destruct (NI_poll_stop s i Hn Hl) as [H1 [H2 [H3 [H4 [H5 [_ [H7 [H8 [H9 [H10 H11]]]]]]]]]].
+  destruct (NI_poll_stop s i Hn Hl) as [H1 [H2 [H3 [H4 [H5 [_ [H7 [H8 [H9 [H10 [H11 _]]]]]]]]]]].
   cbv zeta in *. set (s1 := poll_stop s i) in *.
   destruct (mzero m); [exact H1|]. cbn [fst].
   set (ev := mand m ALLEV).
